@@ -67,9 +67,11 @@ def oracle(col, raw, B, V, loaded):
     return list(raw(col))     # integer / dimensionless / progenitor / light-cone pass-through
 
 
-def body(cleaned, convert, lc=False, requests=('all',)):
+def body(cleaned, convert, lc=False, requests=('all',), int_header=False):
     c = ctx()
-    case = dict(cleaned=cleaned, subsamples=False, convert_units=convert, lightcone=lc)
+    c.extra['numpy_int_semantics'] = True      # the loaders are plain numpy: narrow integer raw columns keep their dtype and wrap
+    c.extra['int_header'] = int_header
+    case = dict(cleaned=cleaned, subsamples=False, convert_units=convert, lightcone=lc, int_header=int_header)
     c.extra['case'] = case
     c.extra['keyprefix'] = 'units:'
     c02.setup(c, cleaned, False)
@@ -139,6 +141,7 @@ def items(tier, seed):
     for cleaned in (False, True):
         for convert in (True, False):
             out.append(dict(name=f'cleaned={int(cleaned)}/units={int(convert)}', cleaned=cleaned, convert=convert, lc=False))
+    out.append(dict(name='cleaned=0/units=1/integer-header', cleaned=False, convert=True, lc=False, int_header=True))
     # a ratio column requested together with the column it is relative to, in both orders (the loaders share
     # one per-file raw table: a reference column scaled in place would reach its ratio columns twice)
     reqs = []
@@ -157,7 +160,7 @@ def items(tier, seed):
 
 
 def run(item):
-    return common.run_paths(lambda: body(item['cleaned'], item['convert'], item['lc'], requests=item.get('requests', ('all',))),
+    return common.run_paths(lambda: body(item['cleaned'], item['convert'], item['lc'], requests=item.get('requests', ('all',)), int_header=item.get('int_header', False)),
                             cov_funcs=FUNCS, max_paths=2000)[0]
 
 
@@ -185,6 +188,7 @@ info = {info!r}
 bad = []
 B, V = realcat.fl(m.get('BoxSize', 2000)), realcat.fl(m.get('VelZSpace_to_kms', 1234))
 if abs(B - V) < 1e-9 * abs(B): V = 0.37 * B + 1.0
+if case.get('int_header'): B, V = int(B), int(V)
 with tempfile.TemporaryDirectory() as d:
     gdir = realcat.write_catalog(d, m, slabs=(0,), nh=2, cleaned=case['cleaned'], box=B, velz=V)
     cat = CompaSOHaloCatalog(gdir, cleaned=case['cleaned'], fields=info.get('request', 'all'), convert_units=case['convert_units'])
@@ -202,6 +206,11 @@ with tempfile.TemporaryDirectory() as d:
                 got = np.asarray(cat.halos[nm], dtype=float)
                 if not np.allclose(got, exp, rtol=1e-5):
                     bad.append(f'{{nm}} = {{got.tolist()}} but int16/32000 x r100{{com}} x BoxSize = {{exp.tolist()}}  [BoxSize={{B}}]')
+        if 'sigman' + com in have:
+            exp = raw['sigman' + com + '_i16'].astype(float) / 32000 * b
+            got = np.asarray(cat.halos['sigman' + com], dtype=float)
+            if not np.allclose(got, exp, rtol=1e-5, atol=1e-9):
+                bad.append(f'sigman{{com}} = {{got.tolist()}} but int16/32000 x BoxSize = {{exp.tolist()}}  [BoxSize={{B!r}}]')
         for stem, rawstem in (('Min', 'Min'), ('Maj', 'Max'), ('rad', 'rad'), ('tan', 'tan')):
             if f'sigmav{{stem}}{{com}}' not in have: continue
             exp = raw[f'sigmav{{rawstem}}_to_sigmav3d{{com}}_i16'].astype(float) / 32000 * s3
